@@ -231,10 +231,10 @@ func Shrink(t *Tape, test func(*Tape) bool, maxTests int) (*Tape, int) {
 
 // Replay is the JSON document written for every reported violation.
 type Replay struct {
-	Property  string            `json:"property"`   // property the violation is reported against
-	Sim       string            `json:"sim"`        // simulation that produced it (may differ: the C06 monitor runs inside every sim)
-	Seed      uint64            `json:"seed"`       // VERIF_SEED of the batch
-	Index     uint64            `json:"index"`      // run index within the batch
+	Property  string            `json:"property"` // property the violation is reported against
+	Sim       string            `json:"sim"`      // simulation that produced it (may differ: the C06 monitor runs inside every sim)
+	Seed      uint64            `json:"seed"`     // VERIF_SEED of the batch
+	Index     uint64            `json:"index"`    // run index within the batch
 	SubSeed   uint64            `json:"subseed"`
 	Tier      string            `json:"tier"`
 	Knobs     map[string]string `json:"knobs,omitempty"`
